@@ -76,3 +76,13 @@ def pda(p):
         z0 = z.value if z is not None else None
     q0 = p.start_state.value if p.start_state is not None else None
     return rp.PDA(trans, q0, z0, [f.value for f in p.final_states], [s.value for s in p.states])
+
+
+def fst(t):
+    """FST -> ref FST (states, start_states, final_states, transitions are public)"""
+    from vf.ref import fst as rf
+    trans = []
+    for (p, a), outs in t.transitions.items():
+        for (q, out) in outs:
+            trans.append((p, a, q, tuple(out)))
+    return rf.FST(list(t.states), list(t.start_states), list(t.final_states), trans)
